@@ -74,6 +74,12 @@ CONTRACTS = {
                          loops={0: dict(invariant=['m_element.f0 < m_n_addr && m_element.f1 < m_n_addr && m_params.f0 < 64 && m_i <= m_params.f0 && m_D.f0 < 2147483648ULL && m_D.f1 <= 1 '
                                                    '&& (m_n_addr & 1) == 1 && m_n_addr > 1'],
                                         decreases='m_params.f0 - m_i', assigns='m_i, m_element, m_ref_tmp, m_agg_tmp14, m_retval')}),
+    'pollard': dict(requires=['v_n > 4'], ensures=['%s >= 1 && %s <= v_n' % (RV, RV)], assigns='',
+                    loops={0: dict(invariant=['m_t >= 1 && m_n_addr > 4'], decreases='m_n_addr / 2 - m_t',
+                                   assigns='m_t, m_max_cycle_length, m_cycle_length, m_tortoise, m_hare, m_factor, m_retval'),
+                           1: dict(invariant=['m_hare < m_n_addr && m_tortoise < m_n_addr && m_t < m_n_addr / 2 && m_factor >= 1 && m_factor <= m_n_addr && m_n_addr > 4'],
+                                   assigns='m_max_cycle_length, m_cycle_length, m_tortoise, m_hare, m_factor')}),
+    'gcd_div': dict(requires=['v_a > 0'], ensures=['%s >= 1 && %s <= v_a' % (RV, RV)], assigns=''),   # ASSUMED here: gcd(a, b) divides a, so 1 <= gcd <= a for a > 0
     'gcd': dict(requires=['1'], ensures=['(v_a != 0 || v_b != 0) ? %s != 0 : %s == 0' % (RV, RV)], assigns='',
                 loops={0: dict(invariant=['(m_a_addr != 0 || m_b_addr != 0) == (__CPROVER_loop_entry(m_a_addr) != 0 || __CPROVER_loop_entry(m_b_addr) != 0)'],
                                decreases='m_b_addr')}),
@@ -207,6 +213,12 @@ def obligations(tier, seed):
                  contract_text='baillie_psw(n), every n: miller_rabin and strong_lucas are called within their preconditions (strong_lucas never sees 2^64-1 because the base-2 round '
                                'rejects it: fact obligation above); result is one of the three PrimeResult values.  That the answer is PROBABLY_PRIME exactly for primes is ASSUMED',
                  fns=('au::detail::baillie_psw',)))
+    obs.append(D('C12.callsites.find_pollard_rho_factor', 'pollard', '  uint64_t n;\n  f_%s(n);' % M['pollard'], replace=('x2t', 'gcd', 'absdiff'), wrap=False,
+                 contracts={M['gcd']: CONTRACTS['gcd_div']}, must=('postcondition', 'precondition', 'step'),
+                 contract_text='find_pollard_rho_factor(n), requires n > 4: x_squared_plus_t_mod_n is always called with x < n and t < n (both loops: tortoise, hare < n; t < n/2), '
+                               'result in [1, n]; the outer loop terminates (decreases n/2 - t); the inner cycle search has no variant (termination of Pollard rho is not claimed); '
+                               'gcd(n, d) in [1, n] is an ASSUMED callee contract; max_cycle_length doubling is not checked for wrap-around (2^64 iterations away)',
+                 fns=('au::detail::find_pollard_rho_factor',)))
     hD = '  struct S_struct_au__detail__LucasDParameter *d;\n  f_%s(d);'
     obs.append(D('C12.contract.as_int', 'as_int', hD % M['as_int'], wrap=False,
                  contract_text='as_int(D): requires D.mag < 2^31; ensures +/- mag; the int multiplication does not overflow'))
